@@ -116,6 +116,9 @@ func TestZZReplay(t *testing.T) {
 		if err := rewriteRedirects(repo, rf.Package, tbl, ov); err != nil {
 			return false, "redirect rewrite: " + err.Error()
 		}
+		if err := rewriteCallSites(repo, []string{rf.Package}, tbl, rf.Package, ov); err != nil {
+			return false, "call-site rewrite: " + err.Error()
+		}
 	}
 	// materialise the overlay
 	repl := map[string]string{}
